@@ -391,6 +391,9 @@ class Flow:
                     v = self.promoted_value(s)
                     if v:
                         return ("const", v)
+                v = self.named_const_literal(s)
+                if v is not None:
+                    return ("const", v)
                 return ("const", s)
             return ("?",)
         p = op.place
@@ -433,6 +436,21 @@ class Flow:
                 return ("adt", short(rv.j["adt"]) + "::" + rv.j["variant"], tuple(self.describe(o, depth - 1) for o in rv.ops))
             return (rv.j["ak"],) + tuple(self.describe(o, depth - 1) for o in rv.ops)
         return ("?", rv.k)
+
+    def named_const_literal(self, s):
+        """`const path::NAME` whose initialiser is a literal -> the literal, in the form MIR prints literals"""
+        nm = s[6:] if s.startswith("const ") else s
+        it = self.prog.items.get(nm.strip())
+        if not it or it.get("kind") not in ("const", "static"):
+            return None
+        init = it.get("init")
+        if not isinstance(init, dict):
+            return None
+        if "str" in init:
+            return 'const "%s"' % init["str"]
+        if "bool" in init:
+            return "const %s" % ("true" if init["bool"] else "false")
+        return None
 
     def promoted_value(self, s):
         """`...::promoted[i]` -> 'Enum::Variant' / const string if the promoted body is a simple aggregate"""
